@@ -5,8 +5,6 @@ import os
 VERIF = os.path.dirname(os.path.dirname(os.path.abspath(__file__)))
 
 BY_DESIGN = {
-    "r2-C16-m1": "needs hooks that re-parent other nodes: outside the fault model (hooks observe and raise)",
-    "r3-C01-m1": "needs hooks that re-parent other nodes: outside the fault model (hooks observe and raise)",
     "r2-C16-m2": "a TreeError-refused assignment that fires (and undoes) hooks: C16 leaves refused calls unconstrained; C18 catches it",
     "r3-C05-m2": "empty groups dropped under a filter: that is C06's statement (C06 catches it), C05 is about default arguments",
     "r4-C05-m2": "a level limit (maxlevel >= 257) ignored by the group iterators: that is C06's statement (C06 catches it), C05 is about default arguments",
